@@ -226,11 +226,31 @@ func verifyCase(s *Suite, kind string, small bool, pks []*gabikeys.PublicKey, ct
 		labelIds = append(labelIds, ids[l])
 	}
 	in := L{pkv, ctx, nonce, issig, labelIds, plv, 0, 0}
+	// the single-proof entry points (ProofD.Verify / ProofU.Verify) on a copy, before the list verification writes into the proof
+	var single gabi.Proof
+	if len(pl) == 1 && len(pks) >= 1 && pks[0] != nil && !ambiguous && pl[0] != nil {
+		single = cloneProof(pl[0])
+	}
 	out, panicked, accepted := catchBool(func() bool { return pl.Verify(pks, ctx, nonce, issig, labels) })
 	if ambiguous {
 		s.Dist["skipped:ambiguous-revocation-index"]++
 		return
 	}
 	s.Add(103, kind, small, in, out)
+	switch x := single.(type) {
+	case *gabi.ProofD:
+		o1, _, _ := catchBool(func() bool { return x.Verify(pks[0], ctx, nonce, issig) })
+		s.Add(101, kind+":ProofD.Verify", false, L{pkv[0], plv[0].(L)[1], ctx, nonce, issig, 0, 0}, o1)
+		// the same proof under the other session kind: the challenge binds the flag
+		y := cloneProof(x).(*gabi.ProofD)
+		o2, _, acc2 := catchBool(func() bool { return y.Verify(pks[0], ctx, nonce, !issig) })
+		s.Add(101, kind+":ProofD.Verify:other-session-kind", false, L{pkv[0], plv[0].(L)[1], ctx, nonce, !issig, 0, 0}, o2)
+		if accepted && acc2 {
+			s.Violate("C02:single-proof-accepted-for-both-session-kinds", "ProofD.Verify accepts one proof as disclosure and as signature session proof ("+kind+")", L{kind})
+		}
+	case *gabi.ProofU:
+		o1, _, _ := catchBool(func() bool { return x.Verify(pks[0], ctx, nonce) })
+		s.Add(104, kind+":ProofU.Verify", false, L{pkv[0], plv[0].(L)[1], ctx, nonce}, o1)
+	}
 	return
 }
